@@ -693,7 +693,7 @@ def r05_7(prog, out):
     facing = set()
     for h in prog.handlers:
         if h.root is not None:
-            facing |= {c for c in prog.cone(h.root, follow=("closure", "poll")) if not c.startswith("crate::api::parser::")}
+            facing |= {c for c in prog.cone(h.root, follow=("closure", "poll", "spawn", "spawn-joinset")) if not c.startswith("crate::api::parser::")}
     for b in prog.facts.lib_bodies():
         if b.id not in facing or (b.kind == "Closure" and not b.coroutine):
             continue
